@@ -3,7 +3,7 @@
      H n                              fresh store, sequence counter n
      W k=v,k=~,...                    write batch                 -> "W acc"
      F id sz                          flush                       -> "F e,e,e" (entries of the new file)
-     C lo up first last ids | files   compaction chosen + outputs -> "C valid outok wf <shape slice rest range closed ids>"
+     C lo up first last ids | files   compaction chosen + outputs -> "C valid outok wf <shape slice rest range closed ids> gcok is_gc accepted"
      R id sz seq | levels             reopen into given version   -> "R sub1 sub2 wf ord ts"
      G k,k,...                        point reads                 -> "G v v v"
      V                                                            -> "V l0ids/l1ids/... wf ord"
@@ -93,10 +93,16 @@ let () =
                  let v = !s.ver in
                  let valid = valid_compactionb v c in
                  let outok = outputs_okb v c outs in
+                 let gcok = gc_outputs_okb v c outs in
                  let wf = wf_versionb (apply_compaction v c outs) in
-                 s := step !s (OCompact (c, outs));
+                 (* a merge into the last level that is not the plain sorted merge is a GC step *)
+                 let is_gc = (not outok) && (int_of_string up + 1 = List.length v) in
+                 let o = if is_gc then OGc (c, outs) else OCompact (c, outs) in
+                 let acc = acceptedb !s o in
+                 s := step !s o;
                  print_endline ("C " ^ b valid ^ " " ^ b outok ^ " " ^ b wf ^ " " ^ b (vc_shape v c) ^ b (vc_slice v c)
-                                ^ b (vc_rest v c) ^ b (vc_range v c) ^ b (vc_closed v c) ^ b (vc_ids v c))
+                                ^ b (vc_rest v c) ^ b (vc_range v c) ^ b (vc_closed v c) ^ b (vc_ids v c)
+                                ^ " " ^ b gcok ^ " " ^ b is_gc ^ " " ^ b acc)
                | _ -> failwith "bad C head")
             | _ -> failwith "bad C")
          | 'R' ->
